@@ -781,7 +781,8 @@ func (c *control) dirProc(colon, at bool, params []any) {
 		var args slip.List
 		if c.argPos < len(c.args) {
 			var ok bool
-			if args, ok = c.args[c.argPos].(slip.List); !ok {
+			// nil is the empty argument list
+			if args, ok = c.args[c.argPos].(slip.List); !ok && c.args[c.argPos] != nil {
 				slip.ErrorPanic(c.scope, 0, "recursive processing directive expected an argument list at %d of %q", c.pos, c.str)
 			}
 		}
